@@ -40,11 +40,11 @@ func buildCases(e *lib.Env) []*tcase {
 	for _, s := range structures(maxW, 3) {
 		shapes = append(shapes, styled(s)...)
 	}
-	fullW := e.Pick(1, 2)
+	fullW := e.Pick(0, 2)
 	cover := e.Pick(2, 20)
-	frac := map[int]float64{2: 0.03, 3: 0.005, 4: 0.001}
+	frac := map[int]float64{1: 0.05, 2: 0.01, 3: 0.0015, 4: 0.0003}
 	if !e.Quick() {
-		frac = map[int]float64{3: 0.08, 4: 0.01}
+		frac = map[int]float64{3: 0.06, 4: 0.007}
 	}
 	rs := e.Rand("matrix-sample")
 	seen := map[string]int{}
@@ -86,6 +86,45 @@ func buildCases(e *lib.Env) []*tcase {
 			}
 		}
 	}
+
+	// 2b. provenance: the array first lives in / is read out of a user object (sources.go)
+	//     and then travels every route as its second hop. Sampled: per (source, route, side)
+	//     K seeded (shape, write) pairs out of all key-style variants of three representative
+	//     structures [x,y], [[x,y],z], [[[x,y]]] plus seeded larger shapes.
+	leaf := func() *node { return &node{leaf: true} }
+	arr := func(k ...*node) *node { return &node{kids: k} }
+	type pair struct {
+		sh *node
+		m  mutation
+	}
+	var reps []pair
+	for _, st := range []*node{arr(leaf(), leaf()), arr(arr(leaf(), leaf()), leaf()), arr(arr(arr(leaf(), leaf())))} {
+		for _, sh := range styled(st) {
+			for _, m := range mutationsFor(sh, nil) {
+				reps = append(reps, pair{sh, m})
+			}
+		}
+	}
+	rp := e.Rand("provenance")
+	for i := 0; i < 40; i++ {
+		sh := randomShape(rp)
+		for _, m := range mutationsFor(sh, rp) {
+			reps = append(reps, pair{sh, m})
+		}
+	}
+	k := e.Pick(25, 250)
+	for _, src := range sources {
+		for ri := range routes {
+			rt := &routes[ri]
+			for _, side := range rt.sides {
+				for j := 0; j < k; j++ {
+					pr := reps[rp.Intn(len(reps))]
+					cases = append(cases, &tcase{route: rt, side: side, mut: pr.m, shape: pr.sh, shapeLit: pr.sh.php(), src: src})
+				}
+			}
+		}
+	}
+	e.Extra("sources", len(sources))
 
 	// 3. seeded larger shapes: random keys, one random (route, side) per mutation
 	r := e.Rand("seeded-shapes")
